@@ -7,6 +7,7 @@ by the input size and show that the resource skeleton closes what it opens.
 -/
 import TrimeshVerif.Proofs.Load
 import TrimeshVerif.Generated.C20Skeleton
+import TrimeshVerif.Generated.C20Strided
 namespace TV.C20
 open TV.Codec TV.Load
 
@@ -90,6 +91,53 @@ theorem C20_other_inputs_open_nothing :
 theorem C20_skeleton_opens :
     (runBlock TV.Generated.loadScenePath {}).any (fun r => r.1.opened) = true ∧
     (runBlock TV.Generated.loadPathPath {}).any (fun r => r.1.opened) = true := by
+  decide
+
+/-- **glTF interleaved accessors never read outside the buffer view**: when the two guards of the `byteStride` branch
+    hold, every byte of every row of the strided view lies inside the data (`0 ≤ position < len(data)`), for every
+    row count, stride, row width and offset a file can announce - `as_strided` itself checks nothing, so this is
+    what stands between a corrupt `byteStride` / `count` and a read of foreign memory -/
+theorem C20_glb_strided_in_bounds (n start stride count perRow i j : Int)
+    (h : stridedOk n start stride count perRow = true)
+    (hi0 : 0 ≤ i) (hi : i < count) (hj0 : 0 ≤ j) (hj : j < perRow) :
+    0 ≤ stridedIndex start stride i j ∧ stridedIndex start stride i j < n := by
+  unfold stridedOk at h
+  simp only [Bool.and_eq_true, decide_eq_true_eq] at h
+  obtain ⟨⟨⟨hs, h0⟩, _⟩, hn⟩ := h
+  unfold stridedIndex
+  have h1 : i * stride ≤ (count - 1) * stride := Int.mul_le_mul_of_nonneg_right (by omega) (by omega)
+  have h2 : 0 ≤ i * stride := Int.mul_nonneg hi0 (by omega)
+  generalize i * stride = a at *
+  generalize (count - 1) * stride = b at *
+  omega
+
+/-- and what is copied out of it is bounded by the bytes present: at most `per_row` bytes per byte of the view
+    (rows may overlap when the stride is shorter than a row; a row is at most one 4x4 float matrix) -/
+theorem C20_glb_strided_alloc (n start stride count perRow : Int)
+    (h : stridedOk n start stride count perRow = true) (hc : 1 ≤ count) (hp : 0 ≤ perRow) :
+    count * perRow ≤ (n - start + 1) * perRow := by
+  unfold stridedOk at h
+  simp only [Bool.and_eq_true, decide_eq_true_eq] at h
+  obtain ⟨⟨⟨hs, h0⟩, _⟩, hn⟩ := h
+  apply Int.mul_le_mul_of_nonneg_right _ hp
+  have h1 : (count - 1) * 1 ≤ (count - 1) * stride := Int.mul_le_mul_of_nonneg_left (by omega) (by omega)
+  generalize (count - 1) * stride = b at *
+  omega
+
+/-- **(G) the guards and the view of the source are the model's**: read from `gltf._read_buffers` by `ast` on every
+    run - both asserts, standing before the view is built, the definition of `length`, the shape and strides handed
+    to `as_strided` and the byte window taken with `frombuffer(offset=start, count=length)` -/
+theorem C20_glb_strided_of_source :
+    TV.Generated.C20.stridedGuards = ["stride > 0", "0 <= start <= start + length <= len(data)"] ∧
+    TV.Generated.C20.stridedGuardsFirst = true ∧
+    TV.Generated.C20.stridedLength = "(count - 1) * stride + per_row" ∧
+    TV.Generated.C20.stridedShape = "[count, per_row]" ∧ TV.Generated.C20.stridedStrides = "[stride, 1]" ∧
+    TV.Generated.C20.stridedWindow = [("count", "length"), ("dtype", "np.uint8"), ("offset", "start")] := by
+  decide
+
+/-- non-vacuity: an interleaved view of three 12-byte rows, 16 bytes apart, 4 bytes into 48 bytes passes the guards;
+    the same with a row count of 2^40 does not -/
+example : stridedOk 48 4 16 3 12 = true ∧ stridedOk 48 4 16 (2 ^ 40) 12 = false ∧ stridedOk 48 4 0 3 12 = false := by
   decide
 
 end TV.C20
